@@ -30,6 +30,10 @@ pub enum ST {
 }
 
 pub uninterp spec fn st(s: Strobe) -> ST;
+/// S1 extensionality: a Strobe object is determined by its history
+pub uninterp spec fn strobe_of(s: ST) -> Strobe;
+pub broadcast axiom fn ax_st_strobe_of(s: ST) ensures #[trigger] st(strobe_of(s)) == s;
+pub broadcast axiom fn ax_strobe_of_st(x: Strobe) ensures strobe_of(#[trigger] st(x)) == x;
 pub uninterp spec fn prf_out(s: ST, n: nat) -> Seq<u8>;
 pub uninterp spec fn mac_out(s: ST, n: nat) -> Seq<u8>;
 pub uninterp spec fn enc_out(s: ST, m: Seq<u8>) -> Seq<u8>;
@@ -52,7 +56,7 @@ pub broadcast axiom fn ax_dec_len(s: ST, c: Seq<u8>) ensures #[trigger] dec_out(
 pub broadcast axiom fn ax_dec_enc(s: ST, m: Seq<u8>) ensures #[trigger] dec_out(s, enc_out(s, m)) == m;
 pub broadcast axiom fn ax_enc_dec(s: ST, c: Seq<u8>) ensures #[trigger] enc_out(s, dec_out(s, c)) == c;
 
-pub broadcast group group_strobe { ax_prf_len, ax_mac_len, ax_enc_len, ax_dec_len, ax_dec_enc, ax_enc_dec }
+pub broadcast group group_strobe { ax_st_strobe_of, ax_strobe_of_st, ax_prf_len, ax_mac_len, ax_enc_len, ax_dec_len, ax_dec_enc, ax_enc_dec }
 
 // S5 (ideal hash) for OUTPUTS: used only by the "different => different / rejected" lemmas,
 // never by a function contract.
